@@ -42,8 +42,11 @@ fn step<'p>(pool: &'p Pool, slot: &mut Option<Guard<'p>>, other: &Option<Guard<'
         }
         None => {
             set_budget(1);
-            let r = pool.try_get();
+            // either entry point; with_capacity asks for more than an arena with one 48-byte chunk can have left
+            let r = if kani::any() { pool.try_get() } else { pool.try_get_with_capacity(Layout::from_size_align(32, 1).unwrap()) };
             set_budget(0);
+            // handing out an arena never releases memory of any arena
+            assert!(released() == 0, "C19: a pool operation released a chunk while the pool is alive");
             let Ok(g) = r else { return };
             *live += 1;
             if *live > *peak {
@@ -110,6 +113,7 @@ fn pool_two_threads() {
         }
         drop(g0);
         drop(g1);
+        assert!(released() == 0, "C19: returning a guard released a chunk");
     }
     assert!(pool.bumps().len() == grants(), "C19: arenas lost or duplicated in the pool");
     assert!(pool.bumps().len() <= peak, "C19: pool holds more arenas than the peak number of live guards");
